@@ -86,6 +86,11 @@ def make_items():
     items.append(('samp', 4, (0x1001, 0, 0x2001, 0), None))
     items.append(('samp', 7, (0x1001, 0, 0, 0, 0x2001, 0, 0x3000, 0), None))
     items.append(('samp', 8, (0x1001, 0x2001, 0, 0, 0, 0, 0, 0), None))
+    # words at and above 2^47 (tagged / signed pointers, kernel addresses) under a header with the 64-bit flag and without it: frames are
+    # the words as they are
+    big = (2 ** 47, 2 ** 47 + 0x1001, 2 ** 63 + 0x2001, 2 ** 64 - 1)
+    items.append(('samp-hdr', 4, big, 0x5))
+    items.append(('samp-hdr', 4, big, 0x1))
     # un-map records are not announcements
     items.append(('unmap', 0x2001, 1, [img_event(0x2001, 1, kind='DYLD_uuid_unmap_a')]))
     items.append(('unmap', 0x0800, 0, [img_event(0x0800, 0, kind='DYLD_uuid_unmap_a')]))
